@@ -24,7 +24,7 @@ def _estimate_system_molecular_weight(molecules, system_molweight):
     for i in range(len(molecules)):
         mol = molecules[i]
         if mol.mixture is not None:
-            if mol.mixture.absolute_mass:
+            if mol.mixture.absolute_mass is not None:
                 total_mass += mol.mixture.absolute_mass
                 num_mass += 1
             if mol.mixture.relative_mass is not None:
